@@ -75,6 +75,8 @@ C08Drift(r, f) ==
 \* ---- C09
 C09Rules(r, f) ==
     IF r.fin.ret # "ok" THEN << <<"C09.no-panic", r.fin.ret # "panic">> >>
+    \* a finished file the harness' own parser cannot read: nothing else can be evaluated on it
+    ELSE IF f.desc.parse # "ok" \/ ~Has(f.desc, "si") THEN << <<"C09.parse", FALSE>> >>
     ELSE IF f.light      \* very long runs: frame list not logged, only the cheap statements
     THEN << <<"C09.parse", f.desc.parse = "ok" /\ Has(f.desc, "si")>>,
             <<"C09.total", HL(f.desc.si.total) = f.whole_frames>>,
@@ -130,6 +132,8 @@ ValidParams(new) ==
     /\ new.channels >= 1 /\ new.channels <= 8
     /\ ValidOpts(new.opts)
     /\ ValidTotal(new)
+\* the total recorded in the finished file, -1 when the file cannot be parsed (so that the rule fails instead of TLC)
+TotalIn(f) == IF "desc" \in DOMAIN f /\ f.desc.parse = "ok" /\ Has(f.desc, "si") THEN HL(f.desc.si.total) ELSE -1
 C15Rules(r, f) ==
     LET decl == DeclaredFrames(r.new)
         whole == f.whole_frames
@@ -142,9 +146,9 @@ C15Rules(r, f) ==
           <<"C15.overfill-reported", (r.new.ret = "ok" /\ decl > 0 /\ whole > decl) => anyerr>>,
           <<"C15.underfill-reported", (r.new.ret = "ok" /\ decl > 0 /\ whole < decl /\ ~r.wpanic) => r.fin.ret = "err">>,
           <<"C15.exact-ok", (r.new.ret = "ok" /\ decl > 0 /\ whole = decl /\ ~r.werr /\ ~r.wpanic) =>
-                               (r.fin.ret = "ok" /\ HL(f.desc.si.total) = decl)>>,
+                               (r.fin.ret = "ok" /\ TotalIn(f) = decl)>>,
           <<"C15.count-recorded", (r.new.ret = "ok" /\ decl = -1 /\ whole >= 1 /\ r.fin.ret = "ok") =>
-                               HL(f.desc.si.total) = whole>> >>
+                               TotalIn(f) = whole>> >>
 
 Rules(r, f) == CASE Prop = "C08" -> C08Rules(r, f)
                  [] Prop = "C09" -> C09Rules(r, f)
